@@ -5,10 +5,12 @@ want = {}
 for pid, spec in props.SPECS.items():
     for tier in ('quick', 'thorough'):
         for j in spec['jobs'](tier, 1):
-            want.setdefault(j.flavour, [])
-            for b in {j.binary, j.replay_bin}:
-                if b not in want[j.flavour]:
-                    want[j.flavour].append(b)
+            for fl, b in ((j.flavour, j.binary), (j.replay_flavour, j.replay_bin)):
+                want.setdefault(fl, [])
+                if b not in want[fl]:
+                    want[fl].append(b)
+            if j.fallback_binary and j.fallback_binary not in want[j.flavour]:
+                want[j.flavour].append(j.fallback_binary)
 try:
     t = vbuild.build(want)
 except vbuild.BuildError as e:
